@@ -127,6 +127,15 @@ impl PatternDestructor {
                     })
                     .collect(),
             ),
+            Expr::ImcompleteRecord(fields) => Expr::ImcompleteRecord(
+                fields
+                    .iter()
+                    .map(|f| RecordField {
+                        name: f.name,
+                        expr: apply_node(f.expr),
+                    })
+                    .collect(),
+            ),
             Expr::Apply(func, args) => Expr::Apply(
                 apply_node(func),
                 args.clone().into_iter().map(apply_node).collect(),
